@@ -96,6 +96,11 @@ pub const C03_SNIPS: &[Snip] = &[
     st("ret-in-else-contradiction", "w :: fn q: int -> int\n if q == 0 do ret 1 else do ret \"a\" end\n end", "w :: fn q: int -> int\n if q == 0 do ret 1 else do ret 3 end\n end"),
     st("ret-in-loop-contradiction", "w :: fn q: int -> int\n loop do ret \"a\" end\n ret 2\n end", "w :: fn q: int -> int\n loop do ret 1 end\n ret 2\n end"),
     st("ret-in-case-contradiction", "w :: fn q: int -> int\n case E.B do\n B -> ret \"a\" end\n else end\n end\n ret 2\n end", "w :: fn q: int -> int\n case E.B do\n B -> ret 1 end\n else end\n end\n ret 2\n end"),
+    st("ret-in-case-else-contradiction", "w :: fn q: int -> int\n case E.B do\n A v -> do end\n else do\n ret \"a\"\n end\n end\n ret 2\n end", "w :: fn q: int -> int\n case E.B do\n A v -> do end\n else do\n ret 1\n end\n end\n ret 2\n end"),
+    st("ret-in-elif-contradiction", "w :: fn q: int -> int\n if q == 0 do\n zz :: 1\n elif q == 1 do\n ret \"a\"\n end\n ret 2\n end", "w :: fn q: int -> int\n if q == 0 do\n zz :: 1\n elif q == 1 do\n ret 1\n end\n ret 2\n end"),
+    st("ret-in-nested-block-contradiction", "w :: fn q: int -> int\n do\n loop q > 0 do\n if q == 1 do\n ret \"a\"\n end\n break\n end\n end\n ret 2\n end", "w :: fn q: int -> int\n do\n loop q > 0 do\n if q == 1 do\n ret 1\n end\n break\n end\n end\n ret 2\n end"),
+    st("ret-in-and-operand-branch", "w :: fn q: int -> int\n zz :: q == 0 and (if q == 1 do\n ret \"a\"\n else do\n true\n end)\n ret 2\n end", "w :: fn q: int -> int\n zz :: q == 0 and (if q == 1 do\n ret 1\n else do\n true\n end)\n ret 2\n end"),
+    st("ret-in-argument-branch", "w :: fn q: int -> int\n print((if q == 1 do\n ret \"a\"\n else do\n 5\n end))\n ret 2\n end", "w :: fn q: int -> int\n print((if q == 1 do\n ret 1\n else do\n 5\n end))\n ret 2\n end"),
     st("ret-void-fn-value", "w :: fn q: int do\n if q == 0 do ret 1 end\n end", "w :: fn q: int do\n if q == 0 do ret end\n end"),
     st("param-contradiction", "w :: fn q: str -> int\n q + 1\n end", "w :: fn q: int -> int\n q + 1\n end"),
     st("void-in-var", "w := print(1)", "print(1)"),
@@ -160,8 +165,17 @@ pub fn enumerate(snips: &[Snip], depth: usize, path_filter: &dyn Fn(&Snip, &[usi
             if pure && p.iter().any(|c| !STMT_CTXS[*c].pure_ok) {
                 continue;
             }
-            if !pure && p.iter().any(|c| STMT_CTXS[*c].name == "pu-closure") {
+            // `pu` closures are legal around statements that are themselves pure (break / continue)
+            if !pure && !matches!(sn.kind, Kind::SNoLoop) && p.iter().any(|c| STMT_CTXS[*c].name == "pu-closure") {
                 continue;
+            }
+            if matches!(sn.kind, Kind::SNoLoop) {
+                // everything inside a `pu` closure must itself be legal in pure code
+                if let Some(j) = p.iter().rposition(|c| STMT_CTXS[*c].name == "pu-closure") {
+                    if p[..j].iter().any(|c| !STMT_CTXS[*c].pure_ok) {
+                        continue;
+                    }
+                }
             }
             if matches!(sn.kind, Kind::SNoLoop) && p.iter().any(|c| STMT_CTXS[*c].in_loop) {
                 // only loops of the *same* function count; a closure in between re-opens the question,
@@ -462,6 +476,20 @@ pub fn c05_snips() -> Vec<Snip> {
                         format!("case {} do\n{}\nend", v0, arms),
                         format!("case {} do\n{}\nend", v0, all_arms));
                 }
+            }
+            if vs.len() >= 2 {
+                // an arm listed twice instead of another one
+                for dup in 0..vs.len() {
+                    let arms = vs.iter().enumerate().map(|(i, v)| if i == (dup + 1) % vs.len() { arm(&vs[dup]) } else { arm(v) }).collect::<Vec<_>>().join("\n");
+                    push(&mut out, format!("case-duplicate-arm:{}-{}", ty, vs[dup].0),
+                        format!("case {} do\n{}\nend", v0, arms),
+                        format!("case {} do\n{}\nend", v0, all_arms));
+                }
+                // deferred through an unannotated parameter
+                let arms = vs.iter().enumerate().map(|(i, v)| if i == 1 { arm(&vs[0]) } else { arm(v) }).collect::<Vec<_>>().join("\n");
+                push(&mut out, format!("case-duplicate-arm-deferred:{}", ty),
+                    format!("w :: fn q do\n case q do\n{}\n end\nend\nw({})", arms, v0),
+                    format!("w :: fn q do\n case q do\n{}\n end\nend\nw({})", all_arms, v0));
             }
             // through a variable and through an annotated parameter
             push(&mut out, format!("case-superset-on-variable:{}", ty),
